@@ -44,7 +44,9 @@ nontrivial_rule(PROP, "Non-trivial: at least one load of the case is in the plas
 assumptions(PROP, [
     "material sets: the FKM estimates (calculate_cyclic_assessment_parameters) for Steel/SteelCast/Al_wrought at "
     "R_m in {100,...,1600} MPa plus perturbed free draws (E +-10 %, K' x[0.8,1.25], n' +-0.03)",
-    "loads are floats (the docstrings say 'array-like float'); python ints / integer arrays are outside the domain",
+    "loads are floats in all sub-checks but 'integer_inputs' (the docstrings say 'array-like float'); for integer-typed containers "
+    "the contract asserted is: either the call rejects the input with TypeError / ValueError / AttributeError (counted per class) "
+    "or it returns results equal to those of the float-typed call that satisfy the equation - never a silently different value",
     "domain: |load| in {0} u [1e-3, 4] x R_m (ranges: x 2) with R_m the tensile strength the material set was estimated from, "
     "1 <= K_p <= 12, tolerances 1e-4 ... 1e-10; stresses handed to the backward functions are images of such loads.  Outside it, "
     "observed and not asserted: vectorised ExtendedNeuber.stress returns unconverged iterates (RuntimeWarning only) once |L|/sigma "
@@ -1104,3 +1106,149 @@ def setter_history(case, ctx):
             ctx.label("set:" + step[0])
             changed = True
     ctx.nontrivial(nt)
+
+
+# ------------------------------------------------------------------------------------------------
+# sub-check 8: integer-typed containers (whole-numbered MPa values)
+
+INT_KINDS = ["int64", "int64", "int32", "series_int64", "series_int32", "list", "pyint", "npint64", "int64_1"]
+
+
+def int_container(kind, vals):
+    if kind == "int64":
+        return np.array(vals, dtype=np.int64)
+    if kind == "int32":
+        return np.array(vals, dtype=np.int32)
+    if kind == "int64_1":
+        return np.array(vals[:1], dtype=np.int64)
+    if kind == "series_int64":
+        return pd.Series(np.array(vals, dtype=np.int64))
+    if kind == "series_int32":
+        return pd.Series(np.array(vals, dtype=np.int32), index=pd.Index(np.arange(len(vals)) + 5, name="node_id"))
+    if kind == "list":
+        return [int(v) for v in vals]
+    if kind == "pyint":
+        return int(vals[0])
+    if kind == "npint64":
+        return np.int64(vals[0])
+    raise ValueError(kind)
+
+
+def float_twin(kind, vals):
+    """the float-typed input with the same numbers and the same shape"""
+    if kind in ("pyint", "npint64"):
+        return float(vals[0])
+    if kind == "int64_1":
+        return np.array(vals[:1], dtype=float)
+    if kind.startswith("series"):
+        return pd.Series(np.array(vals, dtype=float))
+    return np.array(vals, dtype=float)
+
+
+@st.composite
+def _int_cases(draw, tier):
+    case = draw(_base())
+    if case["law"] == "SB":
+        case["K_p"] = draw(st.sampled_from([1.2, 2.0, 3.5, 10.0]))
+    case["fn"] = draw(st.sampled_from(["stress", "stress", "stress_secondary_branch", "load", "load_secondary_branch"]))
+    case["branch"] = "secondary" if "secondary" in case["fn"] else "primary"
+    kind = draw(st.sampled_from(INT_KINDS))
+    case["container"] = kind
+    n = 1 if kind in ("pyint", "npint64", "int64_1") else draw(st.sampled_from([2, 3, 4, 6, 10]))
+    scale = case["Rm"] * (2.0 if case["branch"] == "secondary" else 1.0)
+    lo = max(1, int(math.ceil(1e-3 * scale)))
+    hi = int(4 * scale)
+    mags = draw(st.lists(st.one_of(st.integers(lo, hi), st.integers(lo, max(lo, hi // 8))), min_size=n, max_size=n))
+    vals = [m * draw(st.sampled_from([1, 1, -1])) for m in mags]
+    zeros = draw(st.sampled_from(["none", "none", "first", "middle", "last", "two", "all"]))
+    if n > 1 or zeros == "all":
+        if zeros == "first":
+            vals[0] = 0
+        elif zeros == "last":
+            vals[-1] = 0
+        elif zeros == "middle":
+            vals[n // 2] = 0
+        elif zeros == "two":
+            vals[0] = 0
+            vals[draw(st.integers(0, n - 1))] = 0
+        elif zeros == "all" and draw(st.integers(0, 3)) == 2:
+            vals = [0] * n
+    if case["fn"].startswith("load"):
+        # whole-numbered stresses inside the image of the load domain
+        m, kp, sec = {"E": case["E"], "K": case["K"], "n": case["n"]}, case["K_p"], case["branch"] == "secondary"
+        vals = [0 if v == 0 else int(math.copysign(max(1, math.floor(ref_stress(case["law"], abs(v), m, kp, sec))), v)) for v in vals]
+    case["loads"] = vals
+    return case
+
+
+@subcheck(PROP, "integer_inputs", strategy=_int_cases, quick=600, thorough=20000,
+          doc="whole-numbered loads as int64 / int32 ndarray, integer Series, list of ints, python int, np.int64 - with and without zeros - "
+              "for the four solver functions of both laws: either the input is rejected with TypeError/ValueError/AttributeError (counted) or "
+              "the result equals that of the float-typed call and satisfies the defining equation")
+def integer_inputs(case, ctx):
+    values, kind, fname = case["loads"], case["container"], case["fn"]
+    fvals = [float(v) for v in (values[:1] if kind in ("pyint", "npint64", "int64_1") else values)]
+    _describe(case, ctx, fvals)
+    ctx.label("fn:" + fname, "int_kind:" + kind)
+    if any(v == 0 for v in fvals):
+        ctx.label("int_with_zero")
+    lawname = case["law"]
+    law = make_law(case)
+    rtol, tol = case["rtol"], case["tol"]
+    rt, t = tolerances(case)
+    kw = {}
+    if rtol is not None:
+        kw["rtol"] = rtol
+    if tol is not None:
+        kw["tol"] = tol
+    try:
+        with warnings.catch_warnings(), np.errstate(all="ignore"):
+            warnings.simplefilter("ignore")
+            raw = getattr(law, fname)(int_container(kind, values), **kw)
+    except (TypeError, ValueError, AttributeError) as e:
+        ctx.tolerate("integer-typed input rejected: %s %s(%s) -> %s" % (lawname, fname, kind, type(e).__name__))
+        ctx.label("int_rejected")
+        return
+    except RuntimeError as e:
+        if "converge" not in str(e):
+            raise
+        ctx.tolerate("RuntimeError: solver failed to converge")
+        return
+    arr = np.asarray(raw)
+    if arr.dtype.kind != "f":
+        ctx.label("int_result_dtype")      # e.g. K_p = 1: the start value already solves the equation and is returned as it is
+    got = np.atleast_1d(arr.astype(float)).ravel()
+    try:
+        want = call(make_law(case), fname, float_twin(kind, values), rtol, tol)
+    except SolverRaised:
+        raise Violation("%s %s: the float-typed call raises, the %s call returns %r" % (lawname, fname, kind, list(got)), bucket="integer:raise_mismatch")
+    if len(got) != len(want):
+        raise Violation("%s %s(%s) returned %d values, the float-typed call %d" % (lawname, fname, kind, len(got), len(want)), bucket="integer:length")
+    exact = True
+    for v, g, w in zip(fvals, got, want):
+        if not (g == w):
+            exact = False
+        if not abs(g - w) <= bound(g, rt, t) + bound(w, rt, t):
+            raise Violation("%s %s(%s %r) = %r but the float-typed call gives %r" % (lawname, fname, kind, values, list(got), list(want)),
+                            bucket="integer:differs_from_float:%s:%s" % (lawname, fname))
+    ctx.label("int_equals_float_bitwise" if exact else "int_equals_float_within_tolerance")
+    # the equation itself
+    m, kp, sec = _mat(case), case["K_p"], case["branch"] == "secondary"
+    gated = False
+    if fname.startswith("stress"):
+        info = check_forward(case, ctx, law, fvals, got, fname, where="integer", scalar=len(fvals) == 1)
+        gated = any(i is None for i in info)
+    else:
+        for S, Lp in zip(fvals, got):
+            if S == 0:
+                if Lp != 0:
+                    raise Violation("%s %s(0) = %r for integer input" % (lawname, fname, Lp), bucket="integer:zero:%s" % lawname)
+                continue
+            Ls = ref_load(lawname, abs(S), m, kp, sec)
+            if _known_gate(ctx, f06b_load_start(lawname, fname, S, kp, rt, t), "F06_b"):
+                gated = True
+                continue
+            if not (Lp * S > 0 and abs(abs(Lp) - Ls) <= bound(Ls, rt, t)):
+                raise Violation("%s %s(%s %r): element %r -> %r but the defining equation gives L = %r" % (lawname, fname, kind, values, S, Lp, math.copysign(Ls, S)),
+                                bucket="integer:not_a_root:%s:%s" % (lawname, fname))
+    ctx.nontrivial(not gated)
